@@ -234,3 +234,12 @@ def sany(module):
     p = subprocess.run(["java", "-cp", JAR, "tla2sany.SANY", os.path.join(SPEC, module + ".tla")], cwd=SPEC,
                        stdout=subprocess.PIPE, stderr=subprocess.STDOUT, text=True)
     return p.returncode == 0 and "Semantic errors" not in p.stdout and "Parsing error" not in p.stdout and "*** Errors" not in p.stdout, p.stdout
+
+
+def run_many(jobs, parallel=4):
+    """jobs: list of (args, kwargs) for run(); executed `parallel` at a time (each TLC is its own JVM).
+    Returns results in order; exceptions are re-raised."""
+    from concurrent.futures import ThreadPoolExecutor
+    with ThreadPoolExecutor(max_workers=parallel) as ex:
+        futs = [ex.submit(run, *a, **k) for a, k in jobs]
+        return [f.result() for f in futs]
